@@ -78,7 +78,11 @@ def shards(tier):
     for f in extra:
         out.append({'block': 'FixedPointComparator', 'af': list(f), 'bf': list(f)})
     # wide formats (sizes that invite special-casing): boundary-value operand alphabet
-    wide = [(1, 3, 4), (1, 7, 8), (1, 15, 16), (1, 16, 15), (1, 31, 32)] + ([(1, 8, 7), (1, 0, 31), (1, 30, 1), (1, 32, 31)] if T else [])
+    wide = [(1, 3, 4), (1, 7, 8), (1, 15, 16), (1, 16, 15), (1, 31, 32), (1, 32, 32), (1, 63, 64)] + ([(1, 8, 7), (1, 0, 31), (1, 30, 1), (1, 32, 31)] if T else [])
+    # the comparator with only some of its outputs connected (the others None)
+    for f in ((1, 1, 1), (1, 0, 2)):
+        for keep in ('g', 'e', 'l', 'ge', 'gl', 'el'):
+            out.append({'block': 'FixedPointComparator', 'af': list(f), 'bf': list(f), 'outs': keep})
     for f in wide:
         for blk in ('FixedPointAdd', 'FixedPointSub', 'FixedPointMult'):
             out.append({'block': blk, 'af': list(f), 'bf': list(f), 'rf': list(f), 'corner': 1})
@@ -111,9 +115,10 @@ def build(d):
     bf = tuple(d['bf'])
     b = hw.wire('b', fxp.width(bf))
     if blk == 'FixedPointComparator':
-        gt, eq, lt = hw.wire('gt', 1), hw.wire('eq', 1), hw.wire('lt', 1)
+        keep = d.get('outs', 'gel')
+        gt, eq, lt = [hw.wire(n, 1) if n[0] in keep else None for n in ('gt', 'eq', 'lt')]
         py4hw.FixedPointComparator(hw, 'dut', a, af, b, bf, gt, eq, lt)
-        return hw, [('a', a), ('b', b)], [('gt', gt), ('eq', eq), ('lt', lt)]
+        return hw, [('a', a), ('b', b)], [(n, w) for n, w in (('gt', gt), ('eq', eq), ('lt', lt)) if w is not None]
     rf = tuple(d['rf'])
     r = hw.wire('r', fxp.width(rf))
     getattr(py4hw, blk)(hw, 'dut', a, af, b, bf, r, rf)
@@ -132,7 +137,8 @@ def ref(d, x):
     if blk == 'FixedPointComparator':
         if not fxp.representable(A - B, af):
             return None
-        return {'gt': int(A > B), 'eq': int(A == B), 'lt': int(A < B)}
+        keep = d.get('outs', 'gel')
+        return {n: v for n, v in (('gt', int(A > B)), ('eq', int(A == B)), ('lt', int(A < B))) if n[0] in keep}
     rf = tuple(d['rf'])
     if blk == 'FixedPointAdd':
         return {'r': fxp.encode(A + B, rf)}
